@@ -176,6 +176,12 @@ IdOf(x) ==
     [] x.g = "loop" -> "loop-" \o x.kind \o "-" \o ToString(x.lo) \o "-" \o ToString(x.x)
     [] x.g = "tail" -> "tail-" \o ToString(x.v1) \o "-" \o ToString(x.v2) \o "-" \o x.inner \o "-" \o x.outer
     [] x.g = "nest" -> "nest-" \o ToString(x.v1) \o "-" \o ToString(x.v2)
+\* the condition values in other Go representations: an empty array as a nil slice, an empty map as a nil map, nil as a
+\* nil pointer, the rest behind a Drop or a pointer - truthiness is a matter of the Liquid value
+CondRepr(v) == CASE v.k = "arr" -> "nilslice" [] v.k = "map" -> "nilmap" [] v.k = "nil" -> "nilptr" [] v.k = "bool" -> "ptr" [] OTHER -> "drop"
 EmitCase == st.status # "run" =>
-              PrintT(ToJson([id |-> IdOf(c), kind |-> "render", prog |-> ProgOf(c), env |-> EnvOf2(c)]))
+              /\ PrintT(ToJson([id |-> IdOf(c), kind |-> "render", prog |-> ProgOf(c), env |-> EnvOf2(c)]))
+              /\ (c.g \in {"dual", "nest"} \/ (c.g = "chain" /\ c.n = 1 /\ Emp(c) = 0)) =>
+                   PrintT(ToJson([id |-> "rep-" \o IdOf(c), kind |-> "render", prog |-> ProgOf(c), env |-> EnvOf2(c),
+                                  repr |-> ("c1" :> CondRepr(CU[c.v1])) @@ (IF c.g = "nest" THEN ("c2" :> CondRepr(CU[c.v2])) ELSE <<>>)]))
 =============================================================================
